@@ -140,6 +140,8 @@ type World struct {
 	Main  *simrt.Task
 	LootRel string
 
+	strayDB   []reflect.Value // *sql.DB fields of handles the teamserver opened and then dropped
+
 	Operators []*Operator
 	Demons    []*Demon
 	peerSeq   int
@@ -207,6 +209,9 @@ func (w *World) Boot() error {
 			return
 		}
 		w.TS = ts
+		// Start() opens the database a second time and drops this first handle; a real process
+		// has one such stray handle for its lifetime, the simulator boots thousands of images
+		w.strayDB = append(w.strayDB, reflect.ValueOf(ts.DB).Elem().FieldByName("db"))
 		var flags server.TeamserverFlags
 		flags.Server.SendLogs = w.Cfg.SendLogs
 		flags.Server.Profile = filepath.Join(w.Dir, "profile.yaotl")
@@ -286,6 +291,15 @@ func (w *World) Close() {
 // unexported, and a killed process has its descriptors closed by the kernel).
 func (w *World) closeDB() {
 	defer func() { recover() }()
+	for _, v := range w.strayDB {
+		func() {
+			defer func() { recover() }()
+			if v.IsValid() && !v.IsNil() {
+				(*sql.DB)(unsafe.Pointer(v.Pointer())).Close()
+			}
+		}()
+	}
+	w.strayDB = nil
 	if w.TS == nil || w.TS.DB == nil {
 		return
 	}
